@@ -35,6 +35,15 @@ class SBytes(Sym):
     pass
 
 
+class SRec(Sym):
+    """Immutable record value identified by a symbolic integer id (e.g. a codec object): attribute
+    `a` is the uninterpreted function <kind>_<a>(id); equality is equality of ids."""
+    __slots__ = ("z", "kind", "attrs")
+
+    def __init__(self, z, kind, attrs):
+        self.z, self.kind, self.attrs = z, kind, attrs     # attrs: name -> "str" | "int" | "opaque"
+
+
 class SStrList(Sym):
     """An immutable snapshot of a list of strings of symbolic length: z3 Seq(String)."""
     pass
